@@ -36,7 +36,7 @@ def plan(tier):
 
 def required(tier):
     return ["executions", "window_reached_executions", "forced_window_executions", "random_plan_executions",
-            "timeouts_with_results_in_flight", "multi_group_executions", "process_probe_events", "baseline_ok"]
+            "timeouts_with_results_in_flight", "multi_group_executions", "process_probe_events", "baseline_ok", "big_payload_cases"]
 
 
 def setup(ctx):
@@ -98,7 +98,11 @@ def run_case(ctx, rng, index, casedir):
     sit = collections.Counter()
     viol = []
     nrec = rng.choice([1, 2, 3, 5, 7, rng.randint(8, 20), rng.randint(20, 40)])
-    w = RR.make_workload(rng, casedir, nrec)
+    big_payload = index % 10 == 7  # results larger than the 64 KiB pipe buffer (feeder threads block on the pipe)
+    if big_payload:
+        nrec = rng.randint(2, 6)
+        sit["big_payload_cases"] += 1
+    w = RR.make_workload(rng, casedir, nrec, big_tag=rng.choice([70_000, 200_000]) if big_payload else None)
     # baseline: single core, unperturbed, default batch size
     base_out = os.path.join(casedir, "base.gaf")
     base = RR.run_driver(casedir, "base", ["realign", w.gaf, w.gfa, w.fasta, "-o", base_out, "-c", "1"],
@@ -118,7 +122,7 @@ def run_case(ctx, rng, index, casedir):
         ngroups = -(-(-(-nrec // batch)) // cores)
         scale = rng.choice([0.02, 0.05, 0.1])
         planned = {"cores": cores, "timeout_scale": scale, "max_groups": ngroups + 2}
-        if k == 0 or rng.random() < 0.4:
+        if (k == 0 or rng.random() < 0.4) and not big_payload:
             planned["forced"] = {"groups": "all", "hold": rng.choice([1, 1, 2, 3])}
             kind = "forced"
             sit["forced_window_executions"] += 1
